@@ -181,6 +181,34 @@ func judgeNumeric(c *Ctx, sc *Scenario, sp *numericSpec) *Violation {
 			}
 		}
 	}
+	// stub drift guard: one scenario in eight is run again on real git
+	// peers (possible whenever no size is merely declared)
+	if !sc.Plan.RealPeers && fnv64(sc.Hash())%8 == 0 {
+		declared := false
+		for _, o := range w.Objects {
+			if o.DeclaredSize != nil {
+				declared = true
+			}
+		}
+		if !declared {
+			r := *sc
+			r.Plan = Plan{RealPeers: true}
+			rr := RunA(c.T, c.H, &r, site)
+			c.Stats.AddResult(rr)
+			if rr.Panic != "" || rr.Failed {
+				return &Violation{pfx + "real-peers-run-failed", rr.Panic + rr.Err}
+			}
+			gr, err := ParseJSONObject(rr.Stdout)
+			if err != nil {
+				return &Violation{pfx + "bad-json", "real peers: " + err.Error()}
+			}
+			if bad := ex.CompareV1(gr, sp.fields); len(bad) > 0 {
+				sort.Strings(bad)
+				return &Violation{pfx + "mismatch-on-real-git:" + strings.SplitN(bad[0], ":", 2)[0], "with real git peers: " + strings.Join(bad, "; ")}
+			}
+			c.Stats.Conformance["cli-runs-cross-checked-on-real-git"]++
+		}
+	}
 	if sp.nontrivial != nil && sp.nontrivial(w, ex, sel) {
 		c.Stats.Nontrivial[sc.Hash()] = true
 	}
